@@ -50,6 +50,63 @@ theorem accLoop_popped (ops : Ops DT Val) (cfg : Cfg Val) :
           · right; simp only [List.mem_singleton] at h2; simp [h2]
       · right; simp only [Bool.false_eq_true, ↓reduceIte, List.map_cons, List.mem_cons]; exact Or.inr h1
 
+/-! ## commands in the cfg -/
+
+theorem cmdEntries_nil (ops : Ops DT Val) (n : Name) : ∀ (items : List (Name × Val)), cmdEntries ops n items = .errs [] →
+    ∀ kv ∈ items, ∃ f, ops.cmdProp kv.1 = some f ∧ (f kv.2).isSome = true := by
+  intro items
+  induction items with
+  | nil => intro _ kv h; cases h
+  | cons x items ih =>
+    intro h kv hkv
+    obtain ⟨k, v⟩ := x
+    simp only [cmdEntries] at h
+    cases hp : ops.cmdProp k with
+    | none => simp [hp] at h
+    | some f =>
+      simp only [hp] at h
+      cases hf : f v with
+      | none =>
+        simp only [hf] at h
+        split at h <;> simp at h
+      | some v' =>
+        simp only [hf] at h
+        rcases List.mem_cons.1 hkv with rfl | hin
+        · exact ⟨f, hp, by simp [hf]⟩
+        · exact ih h kv hin
+
+theorem cmds_raised (ops : Ops DT Val) (cfg : Cfg Val) (names : List Name) (acc : CmdsOut)
+    (h : acc.raised = true) : (names.foldl (cmdStep ops cfg) acc).raised = true := by
+  induction names generalizing acc with
+  | nil => exact h
+  | cons n names ih => exact ih _ (by simp [cmdStep, h])
+
+/-- nothing collected and no exception: the cfg of every command went through without complaint -/
+theorem cmds_ok (ops : Ops DT Val) (cfg : Cfg Val) :
+    ∀ (names : List Name) (acc : CmdsOut), acc.raised = false →
+      (names.foldl (cmdStep ops cfg) acc).raised = false → (names.foldl (cmdStep ops cfg) acc).errs = [] →
+      acc.errs = [] ∧ ∀ n ∈ names, addCommand ops n (lookup n cfg) = .errs [] := by
+  intro names
+  induction names with
+  | nil => intro acc _ _ he; exact ⟨he, fun n hn => by cases hn⟩
+  | cons n names ih =>
+    intro acc hacc hr he
+    simp only [List.foldl_cons] at hr he
+    cases hadd : addCommand ops n (lookup n cfg) with
+    | raised =>
+      have : (cmdStep ops cfg acc n).raised = true := by simp [cmdStep, hacc, hadd]
+      rw [cmds_raised ops cfg names _ this] at hr; cases hr
+    | errs es =>
+      have hstep : cmdStep ops cfg acc n = ⟨acc.errs ++ es, false⟩ := by
+        simp [cmdStep, hacc, hadd]
+      rw [hstep] at hr he
+      obtain ⟨h1, h2⟩ := ih _ rfl hr he
+      simp only [List.append_eq_nil_iff] at h1
+      refine ⟨h1.1, fun n' hn' => ?_⟩
+      rcases List.mem_cons.1 hn' with rfl | hin
+      · rw [hadd, h1.2]
+      · exact h2 n' hin
+
 /-! ## the values of the module properties -/
 
 theorem lookup_append_some {α : Type} (n k : Name) (v w : α) (l : List (Name × α)) (h : lookup n l = some v) :
